@@ -31,6 +31,7 @@ def check(ctx, cfg):
     r6(ctx, cfg)
     r7(ctx, cfg)
     r8(ctx, cfg)
+    r9(ctx, cfg)
 
 
 def r8(ctx, cfg):
@@ -500,3 +501,26 @@ def r7(ctx, cfg):
         ret = P.ret(f)
         ok = contains(ret, lambda x: x[0] == "agg" and x[1].endswith("Result::Ok") and contains(x[2][0][1], lambda y: y[0] == "call" and y[1] == W + "next_code_id"))
         ctx.ob(R, key, "returns-new-id", ok, "duplicate_code does not return the new id", fn=f, sample="Ok(new_code_id)")
+
+
+def r9(ctx, cfg):
+    """"with a salt, the address is a function of only the code checksum, creator and salt" - of the generators the keeper was
+    given: `with_address_generator` / `with_checksum_generator` return the keeper with exactly that field replaced by the
+    generator supplied (a builder that drops it silently leaves the default generators in place)"""
+    F, P = cfg.facts, cfg.prov
+    R = "C11.R9"
+    for name, fld, prm in (("with_address_generator", "address_generator", "address_generator"), ("with_checksum_generator", "checksum_generator", "checksum_generator")):
+        key = W + name
+        f = ctx.need_fn(R, key)
+        if f is None:
+            continue
+        rv = peel(P.ret(f))
+        ok = False
+        d = fmt(rv)[:120]
+        if rv[0] == "upd" and is_param(rv[1], "self"):
+            ch = {pth: v for pth, v in rv[2]}
+            ok = set(ch) == {(fld,)} and is_param(ch[(fld,)], prm)
+        elif rv[0] == "agg":
+            dd = dict(rv[2])
+            ok = is_param(dd.get(fld, ("?",)), prm) and all(peel(v)[0] == "field" and peel(v)[2] == k and is_param(peel(v)[1], "self") for k, v in dd.items() if k != fld)
+        ctx.ob(R, key, "keeps-the-generator-supplied", ok, "%s returns %s" % (name, d), fn=f, sample="self with {%s: Box::new(%s)}" % (fld, prm))
